@@ -1627,7 +1627,6 @@ func ruleGetOrCreateAtomic(c *Ctx, rule string) {
 	c.floor(rule, n, 1, "inserts into the by-key registry map")
 }
 
-
 // nilSafeMethod: the method begins by testing its receiver against nil and returns on that branch without touching it.
 func nilSafeMethod(g *ssa.Function) bool {
 	if len(g.Blocks) == 0 || len(g.Params) == 0 {
